@@ -1365,6 +1365,7 @@ namespace occa {
       if (!(nextKeyword.type() & keywordType::while_)) {
         tokenContext.printError("Expected [while] condition after [do]");
         success = false;
+        smntContext.popUp();
         delete &whileSmnt;
         return NULL;
       }
@@ -1397,6 +1398,7 @@ namespace occa {
       }
       ++tokenContext;
 
+      smntContext.popUp();
       return &whileSmnt;
     }
 
